@@ -72,14 +72,14 @@ theorem mantissa_exponent_decode (t : FTy) (bits : Nat) :
 /-- bounds on the accessors for a finite non-zero pattern (sign clear) -/
 theorem mantissa_exponent_bounds (t : FTy) {bits : Nat} (h0 : 0 < bits) (hfin : bits < (fmtOf t).infBits) :
     0 < t.mantissa bits ∧ t.mantissa bits * 16 < 2 ^ t.bits ∧ t.mantissa bits < 2 ^ 64
-      ∧ -2000 ≤ t.exponent bits ∧ t.exponent bits ≤ 2000 := by
+      ∧ -1074 ≤ t.exponent bits ∧ t.exponent bits ≤ 971 := by
   obtain ⟨hm, he⟩ := mantissa_exponent_decode t bits
   rw [hm, he]
   cases t with
   | f32 =>
     have hfin' : bits < 255 * 2 ^ 23 := hfin
     show 0 < (f32.decode bits).m ∧ (f32.decode bits).m * 16 < 2 ^ 32 ∧ (f32.decode bits).m < 2 ^ 64
-      ∧ -2000 ≤ (f32.decode bits).e ∧ (f32.decode bits).e ≤ 2000
+      ∧ -1074 ≤ (f32.decode bits).e ∧ (f32.decode bits).e ≤ 971
     rw [decode_f32]
     by_cases h : bits / 2 ^ 23 % 2 ^ 8 = 0
     · simp only [h, if_true]; omega
@@ -87,7 +87,7 @@ theorem mantissa_exponent_bounds (t : FTy) {bits : Nat} (h0 : 0 < bits) (hfin : 
   | f64 =>
     have hfin' : bits < 2047 * 2 ^ 52 := hfin
     show 0 < (f64.decode bits).m ∧ (f64.decode bits).m * 16 < 2 ^ 64 ∧ (f64.decode bits).m < 2 ^ 64
-      ∧ -2000 ≤ (f64.decode bits).e ∧ (f64.decode bits).e ≤ 2000
+      ∧ -1074 ≤ (f64.decode bits).e ∧ (f64.decode bits).e ≤ 971
     rw [decode_f64]
     by_cases h : bits / 2 ^ 52 % 2 ^ 11 = 0
     · simp only [h, if_true]; omega
@@ -106,7 +106,7 @@ theorem layoutBits_exact (fmt : Format) (o : WOpts) (t : FTy) {bits bpd bpb : Na
   obtain ⟨hm, he⟩ := mantissa_exponent_decode t bits
   have hw : 5 ≤ t.bits := by cases t <;> decide
   unfold layoutBits
-  rw [layoutME_exact fmt o hr hb hp.1 hp.2.1 hp.2.2 b1 hw b2 b3 b4 b5]
+  rw [layoutME_exact fmt o hr hb hp.1 hp.2.1 hp.2.2 b1 hw b2 b3 (by omega) (by omega)]
   unfold valQ
   rw [hm, he]
 
